@@ -826,12 +826,19 @@ func timeNow(in *Interp, st *State, fn *ssa.Function, args []Value, retTo ssa.Va
 		nsec := tf.ConstU(30, uint64(st.clockReads)*1000000)
 		mono := tf.ConstU(64, 1<<41+uint64(st.clockReads)*1000000)
 		wall := tf.Concat(tf.ConstU(1, 1), tf.Concat(sec, nsec))
+		if clockCallerInRepo(st) {
+			st.draws = append(st.draws, draw{Label: "clock", Kind: "Now", Terms: []*Term{sec, nsec, mono}})
+		}
 		return Struct{F: []Value{wall, mono, nilPtr}}, true
 	}
 	sec := in.fresh("now_sec", 33)
 	nsec := in.fresh("now_nsec", 30)
 	mono := in.nextMono(st)
-	st.draws = append(st.draws, draw{Label: "clock", Kind: "Now", Terms: []*Term{sec, nsec, mono}})
+	// readings taken by code of the repository are replayed natively (time overlay,
+	// replay.go); readings taken elsewhere (none today) see the real clock there
+	if clockCallerInRepo(st) {
+		st.draws = append(st.draws, draw{Label: "clock", Kind: "Now", Terms: []*Term{sec, nsec, mono}})
+	}
 	in.addConstraint(st, tf.Cmp("bvult", nsec, tf.ConstU(30, 1000000000)))
 	in.addConstraint(st, tf.Cmp("bvule", tf.ConstU(33, 3630000000), sec))
 	in.addConstraint(st, tf.Cmp("bvule", sec, tf.ConstU(33, 6780000000)))
@@ -846,11 +853,37 @@ func timeNow(in *Interp, st *State, fn *ssa.Function, args []Value, retTo ssa.Va
 }
 
 func timeMono(in *Interp, st *State, fn *ssa.Function, args []Value, retTo ssa.Value, pos token.Pos) (Value, bool) {
+	var m *Term
 	if in.opts["concrete-clock"] {
 		st.clockReads++
-		return in.tf.ConstU(64, 1<<41+uint64(st.clockReads)*1000000), true
+		m = in.tf.ConstU(64, 1<<41+uint64(st.clockReads)*1000000)
+	} else {
+		m = in.nextMono(st)
 	}
-	return in.nextMono(st), true
+	if clockCallerInRepo(st) {
+		st.draws = append(st.draws, draw{Label: "clock", Kind: "Mono", Terms: []*Term{m}})
+	}
+	return m, true
+}
+
+// clockCallerInRepo: the innermost active function outside package time (the
+// code that asked for the time) belongs to the repository module.
+func clockCallerInRepo(st *State) bool {
+	for i := len(st.stack) - 1; i >= 0; i-- {
+		fn := st.stack[i].fn
+		for fn.Parent() != nil {
+			fn = fn.Parent()
+		}
+		if fn.Pkg == nil {
+			continue
+		}
+		p := fn.Pkg.Pkg.Path()
+		if p == "time" {
+			continue
+		}
+		return p == modPath || strings.HasPrefix(p, modPath+"/")
+	}
+	return false
 }
 
 func (in *Interp) nextMono(st *State) *Term {
